@@ -446,7 +446,7 @@ CORPUS = [
 
 def run(chk):
     chk.coq_obligations()
-    n = chk.n(170, 2500)
+    n = chk.n(170, 8000)
     cases = CORPUS + [gen_case(chk.rng, chk.quick) for _ in range(n)]
     impl = run_impl(impl_run, cases, limit=200)
     mjobs, todo, keys, samples = [], [], [], []
